@@ -1,5 +1,6 @@
 import FrappyProofs.Lemmas.Dispatch
 import FrappyModel.Generated.C04
+import FrappyProofs.Props.C01
 /-
 C04 — property theorems (nothing but property theorems and their non-vacuity examples).
 All of them hold for every well-formed node, every datatype oracle, every driver / hook oracle,
@@ -219,6 +220,120 @@ theorem fitting_invertedPair (pre : Predef) (env : Env V) (n : Node J V) (hwf : 
   rw [lookupParam_of_exported pre n hwf m a mod p hex]; simp only
   unfold admitChange
   simp [hro, hc, hacc, hpair, hinv, refuse, mkErr]
+
+/-! ### "exactly the validated value", for the datatypes of the C01 model -/
+
+section exact
+open Frappy.Datatypes Frappy.Lemmas.C01
+variable {F : Type} [FloatOps F] [LawfulFloatOps F]
+
+/-- **change_exactly_validated.**  When the datatype of the addressed parameter is one the datatype model covers
+(`IsC01`: any tree of the ten SECoP kinds, well-formed, scaled grids exactly representable) and the cache holds a value of
+the right shape, the value the driver's write method is called with is EXACTLY `acceptWire dt j (some current)`: the
+payload imported, validated and — for a partial struct — merged into the current value.  The second `validate` of the
+write wrapper changes nothing (C01 `revalidate_unchanged`): the assumption "validate is idempotent" of the general
+theorems is discharged here. -/
+theorem change_exactly_validated (pre : Predef) (env : Env (PVal F)) (n : Node (JVal F) (PVal F)) (hwf : Node.WF pre n)
+    (spec : Spec) (j : JVal F) (m attr : String) (w : PVal F)
+    (h : (handleChange pre env n spec j).calls = [DriverCall.write m attr w]) :
+    ∃ mod p, (∃ m' a, target "target" spec = some (m', a) ∧ ExportedParam pre n m' a mod p) ∧ mod.name = m ∧ p.attr = attr ∧
+      ∀ (dt : DType F) (cls : Frappy.Err → Node.Err), IsC01 p.dt dt cls → dt.WF → GridExact dt →
+        Shaped dt p.entry.value → acceptWire dt j (some p.entry.value) = .ok w := by
+  obtain ⟨mod, p, v, hacc, _, hname, hattr⟩ := (change_calls_iff pre env n hwf spec j m attr w).1 h
+  refine ⟨mod, p, hacc.addressed, hname, hattr, ?_⟩
+  intro dt cls hc hdwf hgrid hshape
+  have hpay := hacc.payload
+  rw [hc.accept] at hpay
+  unfold c01Accept at hpay
+  cases haw : acceptWire dt j (some p.entry.value) with
+  | error e => rw [haw] at hpay; cases hpay
+  | ok v' =>
+    rw [haw] at hpay
+    injection hpay with hpay; subst hpay
+    -- the wrapper's second validate returns the value unchanged
+    have hval : ∃ v0, validate dt v0 (some p.entry.value) = .ok v' := by
+      unfold acceptWire at haw
+      split at haw
+      · cases haw
+      · rename_i v0 _; exact ⟨v0, haw⟩
+    obtain ⟨v0, hv0⟩ := hval
+    have hidem := (Frappy.Props.C01.revalidate_unchanged dt hdwf hgrid v0 (some p.entry.value)
+      (fun q hq => by injection hq with hq; rw [← hq]; exact hshape) v' hv0).1
+    have hrev := hacc.revalidated
+    rw [hc.revalidate] at hrev
+    unfold c01Reval at hrev
+    rw [hidem] at hrev
+    injection hrev with hrev
+    rw [hrev]
+
+end exact
+
+namespace ExactExample
+open Frappy.Props.C01 Frappy.Datatypes
+
+def cls : Frappy.Err → Node.Err
+  | .range => ⟨.rangeError, ""⟩
+  | .wrongType => ⟨.wrongType, ""⟩
+  | .other s => ⟨.other s, ""⟩
+
+/-- the datatype object of the parameter IS the datatype model for C01's example tree (struct of an array of scaled
+values, a double with tolerance, an enum; member `b` optional) -/
+def ops : DtOps (JVal Rat) (PVal Rat) where
+  accept := c01Accept exTree cls
+  revalidate := c01Reval exTree cls
+  convert := fun r => match r with | some v => .ok v | none => .error ⟨.wrongType, "None"⟩
+  exportV := fun _ => .null
+  datainfo := .null
+
+def par : Param (JVal Rat) (PVal Rat) :=
+  { attr := "par", exp := .auto, limitHead := none, isLimitsPair := false, readonly := false, constant := none, dt := ops,
+    entry := ⟨exPrev, none⟩, checks := [], hasRead := false, hasWrite := true, props := [] }
+def m : Module (JVal Rat) (PVal Rat) := { name := "m", exported := true, accs := [.param par], props := [] }
+def node : Node (JVal Rat) (PVal Rat) := [m]
+def env : Env (PVal Rat) where
+  drv := fun _ => .none
+  chk := fun _ _ _ _ => .pass
+  le := fun _ _ => true
+  lt := fun _ _ => false
+  split := fun v => (v, v)
+
+theorem wf : Node.WF [] node := by
+  refine ⟨by unfold namesNodup; decide +kernel, ?_, ?_, ?_, ?_⟩
+  · intro x hx; simp only [node, List.mem_singleton] at hx; subst hx; unfold Module.attrsNodup; decide +kernel
+  · intro x hx; simp only [node, List.mem_singleton] at hx; subst hx; unfold Module.wiresNodup; decide +kernel
+  · intro x hx; simp only [node, List.mem_singleton] at hx; subst hx
+    intro a ha k hk
+    simp only [m, List.mem_cons, List.not_mem_nil, or_false] at ha
+    subst ha; revert hk; revert k; decide +kernel
+  · intro x hx; simp only [node, List.mem_singleton] at hx; subst hx
+    intro a ha p hp hc
+    simp only [m, List.mem_cons, List.not_mem_nil, or_false] at ha
+    subst ha; injection hp with hp; subst hp; simp [par] at hc
+
+theorem isC01 : IsC01 par.dt exTree cls := ⟨fun _ _ => rfl, fun _ => rfl⟩
+
+end ExactExample
+
+open ExactExample Frappy.Props.C01 Frappy.Datatypes in
+/-- non-vacuity of `change_exactly_validated`: `change m:_par {"a":[3,7],"c":"on"}` on a struct whose cached value has
+`b = 2`: the driver is called once, with the payload merged into the current value (`b` taken over), and that value is
+`acceptWire` of the datatype model -/
+example : ∃ w, (handleChange [] env node (.full "m" "_par") exWire).calls = [DriverCall.write "m" "par" w] ∧
+    acceptWire exTree exWire (some exPrev) = .ok w ∧ PVal.same w exResult = true := by
+  have hb : (match (handleChange [] env node (.full "m" "_par") exWire).calls with
+      | [.write "m" "par" w] => PVal.same w exResult
+      | _ => false) = true := by decide +kernel
+  split at hb
+  · rename_i w hcalls
+    obtain ⟨mod, p, ⟨m', a, ht, hex⟩, _, _, hall⟩ :=
+      change_exactly_validated [] env node wf (.full "m" "_par") exWire "m" "par" w hcalls
+    have hp : p = par := by
+      obtain ⟨hmem, _, _, hacc, _⟩ := hex
+      simp only [node, List.mem_singleton] at hmem; subst hmem
+      simp only [m, List.mem_singleton] at hacc; injection hacc
+    subst hp
+    exact ⟨w, hcalls, hall exTree cls isC01 exTree_wf exTree_gridExact (shaped_of_inSet _ _ exPrev_inSet), hb⟩
+  · cases hb
 
 /-! ### commands -/
 
@@ -449,6 +564,214 @@ example : AccessLock.run (AccessLock.init 100) [.check 1 60, .acquire 2, .move 2
   decide
 
 end lock
+
+/-! ### the change section: merge into the current value and driver call in one critical section -/
+
+section changeSection
+open Frappy.Node.ChangeSection
+
+variable (merge : J → V → Option V)
+
+/-- invariant: a remembered merge belongs to the holder of the lock and is the merge into the value cached NOW; every
+call so far was given the payload merged into the value cached at its moment -/
+def SectionInv (s : CState J V) : Prop :=
+  (∀ j v, s.merged = some (j, v) → s.owner ≠ none ∧ merge j s.cur = some v) ∧ CallsMergeCurrent merge s
+
+theorem sectionInv_step (s s' : CState J V) (a : Act J V) (h : SectionInv merge s)
+    (hs : ChangeSection.step merge s a = some s') : SectionInv merge s' := by
+  obtain ⟨hm, hc⟩ := h
+  cases a with
+  | begin t =>
+    simp only [ChangeSection.step] at hs; split at hs
+    · injection hs with hs; subst hs; exact ⟨hm, hc⟩
+    · cases hs
+  | finish t =>
+    simp only [ChangeSection.step] at hs; split at hs
+    · injection hs with hs; subst hs; exact ⟨hm, hc⟩
+    · cases hs
+  | acquire t =>
+    simp only [ChangeSection.step] at hs; split at hs
+    · injection hs with hs; subst hs; exact ⟨(by intro j v hv; cases hv), hc⟩
+    · cases hs
+  | merge t j =>
+    simp only [ChangeSection.step] at hs; split at hs
+    · rename_i ho
+      injection hs with hs; subst hs
+      refine ⟨?_, hc⟩
+      intro j' v' hv
+      simp only [mergeNow] at hv
+      split at hv
+      · rename_i w hw
+        injection hv with hv; injection hv with h1 h2; subst h1; subst h2
+        exact ⟨(by rw [ho.1]; simp), hw⟩
+      · cases hv
+    · cases hs
+  | call t =>
+    simp only [ChangeSection.step] at hs; split at hs
+    · simp only [doCall] at hs
+      split at hs
+      · rename_i j v hmv
+        injection hs with hs; subst hs
+        refine ⟨(by intro j' v' hv; cases hv), ?_⟩
+        intro c hcm
+        simp only [List.mem_append, List.mem_singleton] at hcm
+        rcases hcm with hcm | rfl
+        · exact hc c hcm
+        · exact (hm j v hmv).2
+      · cases hs
+    · cases hs
+  | direct t =>
+    simp only [ChangeSection.step] at hs; split at hs
+    · injection hs with hs; subst hs; exact ⟨hm, hc⟩
+    · cases hs
+  | store t v =>
+    simp only [ChangeSection.step] at hs; split at hs
+    · injection hs with hs; subst hs; exact ⟨(by intro j v hv; cases hv), hc⟩
+    · cases hs
+  | release t =>
+    simp only [ChangeSection.step] at hs; split at hs
+    · injection hs with hs; subst hs; exact ⟨(by intro j v hv; cases hv), hc⟩
+    · cases hs
+
+/-- **calls_merge_current.**  Under the lock discipline of the change section (the merge of the payload into the cached
+value, the driver call and the storing of a new value only by the holder of `accessLock`) every driver call caused by a
+request — in every interleaving of any number of threads, whatever the datatype's merge function — is given the payload
+merged into the value cached at the moment of the call: no other request, poll or write can slip in between the merge
+and the call. -/
+theorem calls_merge_current (cur : V) (acts : List (Act J V)) (s : CState J V)
+    (h : ChangeSection.run merge (ChangeSection.init cur) acts = some s) : CallsMergeCurrent merge s := by
+  have gen : ∀ (acts : List (Act J V)) (s0 s : CState J V), SectionInv merge s0 →
+      ChangeSection.run merge s0 acts = some s → SectionInv merge s := by
+    intro acts
+    induction acts with
+    | nil => intro s0 s h0 hr; injection hr with hr; subst hr; exact h0
+    | cons a rest ih =>
+      intro s0 s h0 hr
+      simp only [ChangeSection.run] at hr
+      split at hr
+      · rename_i s1 hs1; exact ih s1 s (sectionInv_step merge s0 s1 a h0 hs1) hr
+      · cases hr
+  exact (gen acts _ s ⟨(by intro j v hv; cases hv), (by intro c hc; cases hc)⟩ h).2
+
+/-- **requests_one_at_a_time.**  In every run of the system the requests are handled strictly one after the other
+(no `begin` while another request is being handled, `finish` only by the thread that began): the precondition under
+which the sequential theorems (`request_ok`, `histories`) describe a node serving several connections. -/
+theorem requests_one_at_a_time (cur : V) (acts : List (Act J V)) (s : CState J V)
+    (h : ChangeSection.run merge (ChangeSection.init cur) acts = some s) : OneAtATime none acts := by
+  have gen : ∀ (acts : List (Act J V)) (s0 s : CState J V),
+      ChangeSection.run merge s0 acts = some s → OneAtATime s0.busy acts := by
+    intro acts
+    induction acts with
+    | nil => intro s0 s _; simp [OneAtATime]
+    | cons a rest ih =>
+      intro s0 s hr
+      simp only [ChangeSection.run] at hr
+      split at hr
+      · rename_i s1 hs1
+        have hrest := ih s1 s hr
+        cases a with
+        | begin t =>
+          simp only [ChangeSection.step] at hs1; split at hs1
+          · rename_i hb; injection hs1 with hs1; subst hs1; exact ⟨hb, hrest⟩
+          · cases hs1
+        | finish t =>
+          simp only [ChangeSection.step] at hs1; split at hs1
+          · rename_i hb; injection hs1 with hs1; subst hs1; exact ⟨hb, hrest⟩
+          · cases hs1
+        | acquire t =>
+          simp only [ChangeSection.step] at hs1; split at hs1
+          · injection hs1 with hs1; subst hs1; exact hrest
+          · cases hs1
+        | merge t j =>
+          simp only [ChangeSection.step] at hs1; split at hs1
+          · injection hs1 with hs1; subst hs1; exact hrest
+          · cases hs1
+        | call t =>
+          simp only [ChangeSection.step] at hs1; split at hs1
+          · simp only [doCall] at hs1
+            split at hs1
+            · injection hs1 with hs1; subst hs1; exact hrest
+            · cases hs1
+          · cases hs1
+        | direct t =>
+          simp only [ChangeSection.step] at hs1; split at hs1
+          · injection hs1 with hs1; subst hs1; exact hrest
+          · cases hs1
+        | store t v =>
+          simp only [ChangeSection.step] at hs1; split at hs1
+          · injection hs1 with hs1; subst hs1; exact hrest
+          · cases hs1
+        | release t =>
+          simp only [ChangeSection.step] at hs1; split at hs1
+          · injection hs1 with hs1; subst hs1; exact hrest
+          · cases hs1
+      · cases hr
+  exact gen acts _ s h
+
+/-- "exactly once": a merge is used up by the driver call — right after a `call` no second `call` is possible (not
+before the next request has merged its own payload) -/
+theorem no_second_call (s s' : CState J V) (t t' : Nat) (hs : ChangeSection.step merge s (.call t) = some s') :
+    ChangeSection.step merge s' (.call t') = none := by
+  simp only [ChangeSection.step] at hs; split at hs
+  · simp only [doCall] at hs
+    split at hs
+    · injection hs with hs; subst hs
+      simp only [ChangeSection.step, doCall]
+      split <;> rfl
+    · cases hs
+  · cases hs
+
+/-- … and never without a merge: a `call` is only possible after a `merge` of the same section succeeded -/
+theorem call_needs_merge (s s' : CState J V) (t : Nat) (hs : ChangeSection.step merge s (.call t) = some s') :
+    ∃ j v, s.merged = some (j, v) ∧ s.owner = some t ∧ s'.calls = s.calls ++ [⟨t, j, s.cur, v⟩] := by
+  simp only [ChangeSection.step] at hs; split at hs
+  · rename_i ho
+    simp only [doCall] at hs
+    split at hs
+    · rename_i j v hmv; injection hs with hs; subst hs; exact ⟨j, v, hmv, ho, rfl⟩
+    · cases hs
+  · cases hs
+
+namespace SectionExample
+/-- a struct `(p, i)`; a payload sets one member (`none` = keep) -/
+def mergePI : (Option Nat × Option Nat) → (Nat × Nat) → Option (Nat × Nat) :=
+  fun j cur => some (j.1.getD cur.1, j.2.getD cur.2)
+end SectionExample
+
+open SectionExample in
+/-- non-vacuity: two clients change different members of a struct, a poll in between; both changes survive and each
+driver call is the payload merged into the value of its moment -/
+example : (ChangeSection.run mergePI (ChangeSection.init (0, 0))
+    [.begin 1, .acquire 1, .merge 1 (some 1, none), .call 1, .store 1 (1, 0), .release 1, .finish 1,
+     .acquire 3, .store 3 (1, 5), .release 3,
+     .begin 2, .acquire 2, .merge 2 (none, some 2), .call 2, .store 2 (1, 2), .release 2, .finish 2]).map
+      (fun s => (s.cur, s.calls.map (fun c => (c.current, c.value)))) = some ((1, 2), [((0, 0), (1, 0)), ((1, 5), (1, 2))]) := by
+  decide
+
+open SectionExample in
+/-- non-vacuity of `no_second_call` / `call_needs_merge`: the call after a merge is a step, a second one is not -/
+example : (ChangeSection.run mergePI (ChangeSection.init (0, 0)) [.begin 1, .acquire 1, .merge 1 (some 1, none), .call 1]).isSome = true ∧
+    ChangeSection.run mergePI (ChangeSection.init (0, 0)) [.begin 1, .acquire 1, .merge 1 (some 1, none), .call 1, .call 1] = none ∧
+    ChangeSection.run mergePI (ChangeSection.init (0, 0)) [.begin 1, .acquire 1, .call 1] = none := by
+  decide
+
+open SectionExample in
+/-- non-vacuity of `requests_one_at_a_time`: a run with two requests and a poll; a second `begin` inside a request is not a run -/
+example : OneAtATime (J := Option Nat × Option Nat) (V := Nat × Nat) none
+    [.begin 1, .acquire 1, .merge 1 (some 1, none), .call 1, .store 1 (1, 0), .release 1, .finish 1,
+     .acquire 3, .store 3 (1, 5), .release 3, .begin 2, .finish 2] ∧
+    ChangeSection.run mergePI (ChangeSection.init (0, 0)) [.begin 1, .begin 2] = none := by
+  refine ⟨by simp [OneAtATime], by decide⟩
+
+open SectionExample in
+/-- the interleaving of the seeded mutant (client 2 merges while client 1 is still in the driver, i.e. outside the
+critical section) is not a run of the system -/
+example : ChangeSection.run mergePI (ChangeSection.init (0, 0))
+    [.begin 1, .acquire 1, .merge 1 (some 1, none), .call 1, .begin 2, .merge 2 (none, some 2), .store 1 (1, 0), .release 1,
+     .finish 1, .acquire 2, .call 2] = none := by
+  decide
+
+end changeSection
 
 /-! ### table facts (re-checked whenever the repository's table changes) -/
 
